@@ -1,5 +1,6 @@
 /* C20 side-car contracts for the templates of src/Math.hh, one instantiation per compilation:
- *   -DIntT=<type> -DUIntT=<unsigned type of the same width> -DW=<bits> -DSIGNED=0|1 -DSFX=<type name> [-DGCD_FULL=1]
+ *   -DIntT=<type> -DUIntT=<unsigned type of the same width> -DW=<bits> -DSIGNED=0|1 -DSFX=<type name> -DGCD_FULL=0|1
+ *   [-DGCD_PART=1|2] [-DRF_PART=1|2]   (GCD_FULL: with the divisibility clauses, decided at 8 bits only -- props/C20.py)
  * The function text is x_math.inc (extracted on every run, IntT left as a macro).
  *
  * Specification (property C20):
@@ -24,9 +25,7 @@
 
 /* value of an IntT as a non-negative number of the wider type WT (only used on non-negative values); products of two
  * IntT values do not wrap in WT for W <= 32 */
-#ifdef WT_OVERRIDE
-#define WT WT_OVERRIDE
-#elif W <= 16
+#if W <= 16
 #define WT uint32_t
 #else
 #define WT uint64_t
@@ -52,8 +51,19 @@ UIntT g_d, g_d2;    /* ghosts: two arbitrary candidate divisors, >= 1 (two, so t
                        clauses at two points at once: reduce_fraction needs d = g and d = e*g) */
 IntT g_a0, g_b0;    /* ghost: entry values of a and b (the loop overwrites the parameters) */
 
-#if GCD_FULL
+/* The clauses about g_d and the clauses about g_d2 are independent conjuncts (same function, same precondition), so they
+ * are discharged in two separate runs to keep each SAT instance small: -DGCD_PART=1 compiles only the g_d clauses (ensures
+ * and loop invariant), -DGCD_PART=2 only the g_d2 clauses; without GCD_PART the contract is the conjunction of both, which
+ * is what callers (reduce_fraction, the lemma) use with --replace-call-with-contract. */
+#ifndef GCD_PART
+#define GCD_PART 0
+#endif
 #define GCD_INV_DIV1(d) ((DIVS(d, g_a0) && DIVS(d, g_b0)) == (DIVS(d, a) && DIVS(d, b)))
+#if GCD_FULL && GCD_PART == 1
+#define GCD_INV_DIV GCD_INV_DIV1(g_d)
+#elif GCD_FULL && GCD_PART == 2
+#define GCD_INV_DIV GCD_INV_DIV1(g_d2)
+#elif GCD_FULL
 #define GCD_INV_DIV (GCD_INV_DIV1(g_d) && GCD_INV_DIV1(g_d2))
 #else
 #define GCD_INV_DIV 1
@@ -74,8 +84,10 @@ IntT g_a0, g_b0;    /* ghost: entry values of a and b (the loop overwrites the p
 
 IntT GCD_NAME(IntT a, IntT b)
 __CPROVER_requires(NONNEG(a) && NONNEG(b) && g_d >= 1 && g_d2 >= 1)
-#if GCD_FULL
+#if GCD_FULL && GCD_PART != 2
 __CPROVER_ensures(GCD_POST_DIV(g_d, __CPROVER_return_value))
+#endif
+#if GCD_FULL && GCD_PART != 1
 __CPROVER_ensures(GCD_POST_DIV(g_d2, __CPROVER_return_value))
 #endif
 __CPROVER_ensures(b == 0 ==> __CPROVER_return_value == a)
@@ -90,17 +102,25 @@ typedef struct { IntT first; IntT second; } PairT;      /* std::pair<IntT, IntT>
 IntT g_denom;       /* ghost witness: the value gcd returned inside reduce_fraction */
 UIntT g_e;          /* ghost: an arbitrary candidate common divisor of the two returned terms, >= 1 */
 
+/* -DRF_PART=1: only the same-ratio clauses, -DRF_PART=2: only the coprime clause (independent conjuncts, two runs) */
+#ifndef RF_PART
+#define RF_PART 0
+#endif
 PairT RF_NAME(IntT a, IntT b)
 __CPROVER_requires(NONNEG(a) && NONNEG(b) && (a != 0 || b != 0) && g_d >= 1 && g_d2 >= 1 && g_e >= 1)
+#if RF_PART != 2
 /* same ratio: a = p*g and b = q*g for one g >= 1, hence p*b == q*a  (used at d = g) */
 __CPROVER_ensures(g_d == (UIntT)g_denom ==>
                   (g_denom >= 1 && U64(__CPROVER_return_value.first) * U64(g_denom) == U64(a) &&
                    U64(__CPROVER_return_value.second) * U64(g_denom) == U64(b)))
 __CPROVER_ensures(g_d == (UIntT)g_denom ==>
                   U64(__CPROVER_return_value.first) * U64(b) == U64(__CPROVER_return_value.second) * U64(a))
+#endif
+#if RF_PART != 1
 /* coprime: a common divisor e of both terms is 1  (gcd contract used at d = g and d2 = e*g) */
 __CPROVER_ensures((g_d == (UIntT)g_denom && U64(g_d2) == U64(g_e) * U64(g_denom) && DIVS(g_e, __CPROVER_return_value.first) &&
                    DIVS(g_e, __CPROVER_return_value.second)) ==> g_e == 1)
+#endif
 __CPROVER_ensures(NONNEG(__CPROVER_return_value.first) && NONNEG(__CPROVER_return_value.second))
 __CPROVER_assigns(g_a0, g_b0, g_denom);
 
